@@ -173,7 +173,8 @@ CHECKS["C05"] = NS(
         "QBits (int2/int4, grouped or not), plain} x dtype, ranks 1-4 dims 1-5; steps drawn from the op tables with integer "
         "selectors resolved at run time; partners (equal-scale companions, fresh quantized/plain operands) are constructed so "
         "shapes match; `contract` enumerates completely the 2-step programs source -> contraction (9 quantized source kinds x ranks 2, 3 x "
-        "square/non-square x 7 contractions x 36 partner kinds x widths x call variants). Non-trivial: >= 2 executed steps, >= 1 step whose result is still quantized, >= 1 step consuming the result "
+        "square/non-square x 7 contractions x 36 partner kinds x widths x call variants), and `pairs` the 2-step programs source -> binary "
+        "operation (12 source kinds x 16 operations x 36 companion modes x 6 argument variants). Non-trivial: >= 2 executed steps, >= 1 step whose result is still quantized, >= 1 step consuming the result "
         "of an earlier step. Distinct by the tuple of (op, operand kinds, result kind) per step."
     ),
     ASSUMPTIONS=[
@@ -182,8 +183,8 @@ CHECKS["C05"] = NS(
         "steps whose float counterpart raises are discarded (float-invalid program), and view() must also be valid on a float twin with the size/stride the wrapper reports",
         "whether a result is still quantized is never asserted: falling back to float is always allowed",
     ],
-    PLAN={"quick": [("alias", 4, {}), ("contract", 8, {}), ("program", 12, {"n": 1600, "max_steps": 8})],
-          "thorough": [("alias", 4, {}), ("contract", 8, {}), ("program", 16, {"n": 12000, "max_steps": 12})]},
+    PLAN={"quick": [("alias", 4, {}), ("contract", 8, {}), ("pairs", 8, {}), ("program", 12, {"n": 1600, "max_steps": 8})],
+          "thorough": [("alias", 4, {}), ("contract", 8, {}), ("pairs", 8, {}), ("program", 16, {"n": 12000, "max_steps": 12})]},
 )
 
 CHECKS["C06"] = NS(
@@ -208,8 +209,8 @@ CHECKS["C06"] = NS(
     ),
     ASSUMPTIONS=["real device moves are impossible here (CPU only): cpu->cpu copies and meta are exercised", "AWQ/Marlin subclasses are out of reach on CPU (C15 covers the AWQ layout)"],
     PLAN={
-        "quick": [("program", 12, {"n": 2000, "max_steps": 8}), ("config", 2, {"n": 600}), ("module", 2, {"n": 300})],
-        "thorough": [("program", 10, {"n": 8000, "max_steps": 12}), ("config", 3, {"n": 10000}), ("module", 3, {"n": 4000})],
+        "quick": [("pairs", 8, {}), ("program", 12, {"n": 2000, "max_steps": 8}), ("config", 2, {"n": 600}), ("module", 2, {"n": 300})],
+        "thorough": [("pairs", 8, {}), ("program", 10, {"n": 8000, "max_steps": 12}), ("config", 3, {"n": 10000}), ("module", 3, {"n": 4000})],
     },
 )
 
